@@ -120,8 +120,8 @@ SEARCH_SIZES = {"quick": {"C06": (60, 3), "C18": (60, 3)}, "thorough": {"C06": (
 def search_property(pid, rep, replay=None):
     rep.broken = None
     info = prove(pid, rep)
-    profiles = ("release", "checked") if pid == "C08" else ("release",)
-    if not build_impl(rep, profiles=profiles):
+    profiles = ("release", "checked") if pid in ("C08", "C15") else ("release",)
+    if not build_impl(rep, profiles=profiles, engine=(pid == "C15")):
         proof_coverage(rep, info, {})
         return finish(rep, info)
     tier = rep.tier if rep.broken is None else "thorough"
@@ -142,6 +142,12 @@ def search_property(pid, rep, replay=None):
         stats, kinds, cases = searchchk.check_pruning(rep, tier, rep.seed)
         rule = "table-less (hook) iterative and single-depth searches on small positions vs the unpruned reference evaluated by the Lean specification; distinct = (position, depth) values compared"
         distinct = stats.get("values_compared", 0)
+    elif pid == "C15":
+        stats, kinds, cases = searchchk.check_bounds(rep, tier, rep.seed)
+        rule = ("checked build (debug assertions + overflow checks: violated unchecked-access preconditions panic): games of up to 398 plies "
+                "followed by searches, maximal-mobility and many-promotion positions, every FEN the reader accepts from a mutation stream "
+                "followed by generation and search; self-play to the length guard on the real binary; distinct = cases")
+        distinct = stats.get("cases", 0)
     elif pid == "C10":
         stats, kinds, cases = searchchk.check_mates(rep, tier, rep.seed)
         rule = "mate-in-one positions found by the independent Lean solver among composed and walked positions, searched with limits 3, 4, none; dead roots; distinct = searches"
@@ -153,7 +159,7 @@ def search_property(pid, rep, replay=None):
     return finish(rep, info)
 
 
-for _pid in ("C06", "C07", "C08", "C09", "C10", "C18"):
+for _pid in ("C06", "C07", "C08", "C09", "C10", "C15", "C18"):
     REGISTRY[_pid] = search_property
 
 
